@@ -422,12 +422,15 @@ impl Callbacks for Cb {
                 DefKind::AssocFn => "assoc_fn",
                 DefKind::Closure => "closure",
                 DefKind::Ctor(..) => continue,
-                _ => continue, // consts, statics, anon consts: not runtime control flow of interest
+                // named constants and statics: no runtime control flow, but the values they build (tables of IR variants,
+                // keyword lists) are what table-driven code consults — their aggregates belong to the inventory
+                DefKind::Const { .. } | DefKind::AssocConst { .. } | DefKind::Static { .. } => "const",
+                _ => continue, // anon consts, inline consts
             };
             if tcx.is_constructor(did) {
                 continue;
             }
-            let body: &mir::Body<'tcx> = tcx.optimized_mir(did);
+            let body: &mir::Body<'tcx> = if kind == "const" { tcx.mir_for_ctfe(did) } else { tcx.optimized_mir(did) };
             let mut bf = BodyFacts {
                 cx: &cx,
                 body,
